@@ -191,7 +191,8 @@ func (manager *localManager) ListAllUsers() (infos []UserInfo, err error) {
 	err = manager.db.View(func(tx *bolt.Tx) error {
 		err = tx.ForEach(func(UID []byte, bucket *bolt.Bucket) error {
 			var uinfo UserInfo
-			uinfo.UID = UID
+			// bolt's key slice is only valid inside the transaction; the caller marshals the result after it
+			uinfo.UID = append([]byte(nil), UID...)
 			uinfo.SessionsCap = JustInt32(int32(u32(bucket.Get([]byte("SessionsCap")))))
 			uinfo.UpRate = JustInt64(int64(u64(bucket.Get([]byte("UpRate")))))
 			uinfo.DownRate = JustInt64(int64(u64(bucket.Get([]byte("DownRate")))))
